@@ -115,3 +115,9 @@ if __name__ == "__main__" and sys.argv[1] == "seeded":
     sd = os.path.join(ROOT, "seeded", sys.argv[2])
     meta = json.load(open(os.path.join(sd, "meta.json")))
     from_patch(os.path.join(sd, "patch.diff"), meta["property"], "seeded_" + sys.argv[2], sys.argv[3], "seeded change " + sys.argv[2] + ": needs " + meta["needs_to_manifest"])
+
+if __name__ == "__main__" and sys.argv[1] == "benign":
+    # mm.py benign <benign-name>   -> a silent variant: the behaviour-preserving change must not be reported
+    bd = os.path.join(ROOT, "benign", sys.argv[2])
+    meta = json.load(open(os.path.join(bd, "meta.json")))
+    from_patch(os.path.join(bd, "patch.diff"), meta["property"], "benign_" + sys.argv[2], "SILENT", "behaviour-preserving change " + sys.argv[2] + ": " + meta.get("what", ""))
